@@ -92,7 +92,7 @@ func execC15(c Case) string {
 			}
 		case "Z":
 			if k := h(1); k != nil {
-				rg := hdkeychain.VerifFieldRanges(k)
+				rg := hk_hdkeychain_FieldRanges(k)
 				k.Zero()
 				ok := true
 				for f := 0; f < 4; f++ {
@@ -114,7 +114,7 @@ func execC15(c Case) string {
 		rs := []rng{}
 		for i, k := range keys {
 			strs = append(strs, hs(k.String()))
-			fr := hdkeychain.VerifFieldRanges(k)
+			fr := hk_hdkeychain_FieldRanges(k)
 			for f := 0; f < 4; f++ {
 				if fr[f][1] > 0 {
 					rs = append(rs, rng{i, f, fr[f][0], fr[f][0] + fr[f][1]})
